@@ -30,7 +30,7 @@ RowsRec(ctx, texts, acc) ==
 
 \* ------------------------------------------------------------------ myers
 MyersAfter(cfg, s, e) ==            \* first event of the run (unless it is a refused `new`)
-    IF s = NoState /\ ~(e.c.op = "new" /\ e.r.st # "ok")
+    IF s = NoState /\ ~(e.c.op \in {"new", "clone_from"} /\ e.r.st # "ok")
     THEN RowsRec(MkEq(cfg.p, cfg.ambig, cfg.wild), cfg.texts, << >>)
     ELSE s
 
@@ -50,6 +50,29 @@ MyersExplains(cfg, s, e) ==            \* s = state after the event (the cache)
            /\ r.st = "ok"
            /\ Len(s[c.a.ti]) > 0 => r.v = BestEndOfRow(s[c.a.ti])
       [] c.op = "blk_profile" -> r.st = "ok"      \* not a call of rust-bio, see MyersExact
+      \* the object copied in the middle of its history (clone, clone_from into a used object of
+      \* another pattern, Debug formatting): must not fail; the events that follow are answered
+      \* by the copy or by the original (a.on) and are judged like all others
+      [] c.op \in {"clone", "clone_from", "debug"} -> r.st = "ok"
+      \* the result iterator forked after j items: both continuations give the remaining hits
+      [] c.op = "find_all_end_fork" ->
+           LET h == HitsOfRow(s[c.a.ti], c.a.k) IN
+           /\ r.st = "ok"
+           /\ r.head = SubSeq(h, 1, Min2(c.a.j, Len(h)))
+           /\ r.tail1 = SubSeq(h, Len(r.head) + 1, Len(h))
+           /\ r.tail2 = r.tail1
+      \* the result iterator consumed through count / last / nth / skip / step_by, or asked for
+      \* its size_hint after n items
+      [] c.op = "find_all_end_via" ->
+           LET h == HitsOfRow(s[c.a.ti], c.a.k) IN
+           /\ r.st = "ok"
+           /\ IF c.a.how = "size_hint" THEN HintOK(r.v, Len(h) - Min2(c.a.n, Len(h)))
+              ELSE r.v = ViaSeq(h, c.a.how, c.a.n)
+      \* long::Myers::default() (no pattern): refuses to search, or answers like the definition
+      \* for the empty pattern (distance 0 at every end position)
+      [] c.op = "default_long" ->
+           \/ r.st = "panic"
+           \/ r.st = "ok" /\ r.v = [x \in 1..Len(cfg.texts[c.a.ti]) |-> << x - 1, 0 >>]
       [] OTHER -> FALSE
 
 \* `blk_profile` records what the driver's transcription of the block machine (used to steer
@@ -68,6 +91,12 @@ UkkExplains(cfg, e) ==
     CASE c.op = "find_all_end" ->
            /\ r.st = "ok"
            /\ r.v = Hits(MkCost(c.a.p, cfg.cost), c.a.t, c.a.k)
+      [] c.op \in {"clone", "debug"} -> r.st = "ok"
+      [] c.op = "find_all_end_via" ->
+           LET h == Hits(MkCost(c.a.p, cfg.cost), c.a.t, c.a.k) IN
+           /\ r.st = "ok"
+           /\ IF c.a.how = "size_hint" THEN HintOK(r.v, Len(h) - Min2(c.a.n, Len(h)))
+              ELSE r.v = ViaSeq(h, c.a.how, c.a.n)
       [] OTHER -> FALSE
 
 \* ------------------------------------------------------------------- dist
